@@ -171,6 +171,7 @@ func (p *Prog) mapOrigins(v ssa.Value, depth int, seen map[ssa.Value]bool, out m
 func init() {
 	register("C20", func(c *Ctx) {
 		p := c.P
+		c20CopySafe(c)
 		c.Explain = "Immutability and publication discipline of the pre-confirmed view decided from SSA stores, map origins and the call graph: (immutable) no store to a field of a published chain node or of a PreConfirmed reached through one; every map that is the destination of maps.Copy / an index assignment in sync/preconfirmed originates from nil, make or maps.Clone — never from a field of a published entry; " +
 			"(cas-only) ChainStorage.inner is used only through Load and CompareAndSwap; (single-writer) ApplyUpdate/AdvanceTo are called only by the poller; (bounded-walk) every traversal along node.parent is bounded by an integer counter (views are length-bounded, not nil-terminated); (overlay-first) every pending.State reader consults its diff sections before delegating to the head state; " +
 			"(merge-order) state views fold StateDiff.Merge over OldestFirst() and open the base at oldest−1, and Merge covers all seven sections; (arith) guarded unsigned arithmetic in chain_storage.go. Not decided: that what readers observe under concurrency equals the model overlay; poller protocol correctness."
@@ -735,4 +736,80 @@ func (p *Prog) isLocalAccumulator(n *types.Named) bool {
 	}
 	p.accCache[n.Obj()] = ok
 	return ok
+}
+
+// c20CopySafe: (copy-safe) the delta path derives the next pre-confirmed block from the current one by copying the struct
+// (`next := *current`) and then replacing the fields that change — the idiom C20/immutable accepts. That is sound only while
+// the struct carries no state that is *derived from its own content*: a lazily built index, a once-guard, an atomic memo is
+// copied along and keeps describing the old content. Decided: every module struct type that is copied by dereference in
+// adapters/sn2core, sync/preconfirmed or core/pending has no field (directly or in an embedded module struct) whose type
+// comes from sync or sync/atomic. Seeded change C20-K adds a lazily built tx-hash index (atomic.Value) to
+// pending.PreConfirmed: after a delta the new tip's lookups miss the appended transactions.
+func c20CopySafe(c *Ctx) {
+	p := c.P
+	n := 0
+	seenT := map[string]bool{}
+	var syncField func(t types.Type, d int) string
+	syncField = func(t types.Type, d int) string {
+		st, ok := t.Underlying().(*types.Struct)
+		if !ok || d > 2 {
+			return ""
+		}
+		for i := 0; i < st.NumFields(); i++ {
+			f := st.Field(i)
+			ts := f.Type().String()
+			if strings.HasPrefix(ts, "sync.") || strings.HasPrefix(ts, "sync/atomic.") || strings.HasPrefix(ts, "*sync.") || strings.HasPrefix(ts, "*sync/atomic.") {
+				return f.Name() + " " + ts
+			}
+			if nt, ok := f.Type().(*types.Named); ok && nt.Obj().Pkg() != nil && strings.HasPrefix(nt.Obj().Pkg().Path(), modPath) {
+				if s := syncField(nt, d+1); s != "" {
+					return f.Name() + "." + s
+				}
+			}
+		}
+		return ""
+	}
+	for _, fn := range p.sortedFuncs() {
+		pr := pkgRelOf(fn)
+		if !(pr == "adapters/sn2core" || pr == "sync/preconfirmed" || pr == "core/pending") || fn.Origin() != nil || strings.HasSuffix(p.Pos(fnPos(fn)), "_test.go") {
+			continue
+		}
+		allInstrsOne(fn, func(in ssa.Instruction) {
+			u, ok := in.(*ssa.UnOp)
+			if !ok || u.Op != token.MUL {
+				return
+			}
+			nt, ok := u.Type().(*types.Named)
+			if !ok || nt.Obj().Pkg() == nil || !strings.HasPrefix(nt.Obj().Pkg().Path(), modPath) {
+				return
+			}
+			if _, isStruct := nt.Underlying().(*types.Struct); !isStruct {
+				return
+			}
+			// a whole-struct copy: the loaded value is stored into another cell
+			copied := false
+			if refs := u.Referrers(); refs != nil {
+				for _, r := range *refs {
+					if st, ok := r.(*ssa.Store); ok && st.Val == ssa.Value(u) {
+						copied = true
+					}
+				}
+			}
+			if !copied {
+				return
+			}
+			key := nt.String()
+			if seenT[key] {
+				return
+			}
+			seenT[key] = true
+			n++
+			sf := syncField(nt, 0)
+			c.check(sf == "", "copy-safe", "struct copy of "+nt.Obj().Name()+" in "+qname(fn), p.Pos(posOf(in, fn)), "the copied struct carries no sync/atomic state derived from its content",
+				nt.Obj().Name()+" is copied by value here but has field "+sf+": whatever was memoised in it for the original (a lazily built index, a once-guard) is carried into the copy and keeps describing the old content after the copy's fields are replaced")
+		})
+	}
+	if n == 0 {
+		c.und("copy-safe", "adapters/sn2core, sync/preconfirmed, core/pending", "", "no by-value struct copy found (the delta path's `next := *current` idiom)")
+	}
 }
